@@ -323,7 +323,7 @@ def composite_specs(inner, allow_grid=True):
     opts = [
         st.builds(lambda ms, a: {"kind": "ensemble", "members": ms, "aggfunc": a},
                   st.lists(inner, min_size=1, max_size=3), st.sampled_from(["mean", "median", "min", "max"])),
-        st.builds(_pipeline, transformer_chains(2), inner),
+        st.builds(_pipeline, transformer_chains(2, allow_boxcox=False), inner),
         st.builds(lambda ms, s: {"kind": "multiplex", "members": ms, "selected": s},
                   st.lists(inner, min_size=1, max_size=3), st.integers(0, 5)),
         st.builds(lambda ms: {"kind": "stack", "members": ms, "reg": "linear"}, st.lists(inner, min_size=1, max_size=3)),
